@@ -11,7 +11,7 @@ import (
 
 func genC09(rt *rapid.T) Scenario {
 	return genScenario(rt, Profile{MinTargets: 1, MaxTargets: 3, MinSets: 2, MaxSets: 6, MultiTarget: true, Poison: true, Offline: true, Refuse: true, Rollbacks: true,
-		Preempt: 2, Drawn: true, Serializable: true, Pace: true})
+		Faults: true, Transient: true, FaultInSync: true, Preempt: 2, Drawn: true, Serializable: true, Pace: true})
 }
 
 // checkFixedPoint: with no pending work, one extra reconcile of every
